@@ -98,8 +98,10 @@ bool run(const Case &c, std::string &msg) {
         // (which ones is a function of the chunk, so a history replays identically); the state transition must not depend on it
         unsigned opt = p.chunk.empty() ? 0 : (unsigned) (p.chunk[p.chunk.size() - 1] & 3);
         bool want_tag = !(opt & 1), want_len = !(opt & 2);
-        int rc = crypto_secretstream_xchacha20poly1305_pull(puller, mb.p, want_len ? &ml : nullptr, want_tag ? &tg : nullptr, cb.p, p.chunk.size(), p.ad_null ? nullptr : ab.p, p.ad_null ? 0 : p.ad.size());
-        if (rc != 0) { why = "the genuine next chunk was rejected"; return false; }
+        // an empty message needs no output buffer: half of the empty chunks are pulled with m == NULL
+        unsigned char *mptr = (p.msg.empty() && p.chunk.size() >= 2 && (p.chunk[p.chunk.size() - 2] & 1)) ? nullptr : mb.p;
+        int rc = crypto_secretstream_xchacha20poly1305_pull(puller, mptr, want_len ? &ml : nullptr, want_tag ? &tg : nullptr, cb.p, p.chunk.size(), p.ad_null ? nullptr : ab.p, p.ad_null ? 0 : p.ad.size());
+        if (rc != 0) { why = mptr ? "the genuine next chunk was rejected" : "the genuine next chunk (empty message, pulled with m == NULL) was rejected"; return false; }
         if ((want_len && ml != p.msg.size()) || mb.get() != p.msg || (want_tag && tg != p.tag)) { why = "pull returned a different message, length or tag than was pushed"; return false; }
         Bytes mm; uint8_t mt;
         if (!mpull.pull(p.chunk, p.ad, mm, mt) || mm != p.msg || mt != p.tag) { why = "model rejected the genuine chunk (harness bug)"; return false; }
@@ -116,7 +118,8 @@ bool run(const Case &c, std::string &msg) {
             XBuf mb(m, 1), ab(ad, 2), cb(op.mlen + 17, 3);
             unsigned long long cl = 0;
             bool use_clen = (op.sel & 8) == 0;
-            int rc = crypto_secretstream_xchacha20poly1305_push(pusher, cb.p, use_clen ? &cl : nullptr, mb.p, op.mlen, op.adlen < 0 ? nullptr : ab.p, op.adlen < 0 ? 0 : ad.size(), (unsigned char) op.tag);
+            const unsigned char *mp = (op.mlen == 0 && (op.sel & 16)) ? nullptr : mb.p;      // an empty message needs no buffer (e.g. a bare FINAL marker)
+            int rc = crypto_secretstream_xchacha20poly1305_push(pusher, cb.p, use_clen ? &cl : nullptr, mp, op.mlen, op.adlen < 0 ? nullptr : ab.p, op.adlen < 0 ? 0 : ad.size(), (unsigned char) op.tag);
             if (rc != 0 || (use_clen && cl != op.mlen + 17)) STEPFAIL("push returned %d / clen %llu", rc, cl);
             Bytes want = mpush.push(m, ad, (uint8_t) op.tag);
             if (cb.get() != want) { size_t i = 0; Bytes g = cb.get(); while (i < g.size() && g[i] == want[i]) i++; STEPFAIL("pushed chunk differs from the documented construction at byte %zu of %zu (tag 0x%02x, mlen %zu, adlen %d)", i, want.size(), op.tag, op.mlen, op.adlen); }
